@@ -549,6 +549,10 @@ fn oracle(model: &mut Model, before: &Snap, after: &Snap, notified: &BTreeSet<De
             Err(e) => {
                 detsim::check(v1 == v0 && id1 == id0, "graph/failed-reload-changed-value", || format!("round {ri}: a fresh load of {k:?} fails ({}), yet it went from {v0:?}/{id0} to {v1:?}/{id1}", e.show()));
                 detsim::count("reach.failed_reload_kept_old_value");
+                // the asset keeps its own dependencies, but what nested load_owned / load calls registered with the
+                // reloader before the failure stays registered
+                model.reg = m2.reg;
+                model.nodes = m2.nodes;
             }
         }
     }
